@@ -51,18 +51,65 @@ def cli_text_check(ctx, variant, r):
             ctx.violation('cli:diagnostics', f'failure text does not name {missing[:5]}', case)
 
 
+def delete_one_variant(draw, sc, r0):
+    """remove exactly one input that the base run read; the kind of input is drawn
+    first so that rare kinds (optional enumerations, regex, SSN) are not drowned"""
+    from hx import catalog
+    base_read = sorted({key for _, reads, _ in r0.trace.attempts for kind, key, o, _v in reads if kind == 'i'} & set(sc['inputs']))
+    by_kind = {}
+    for key in base_read:
+        inp = r0.solver._input_map.get(key)
+        k = catalog.input_kind(inp) if inp is not None else '?'
+        if k == 'enum' and getattr(inp, 'allow_empty', False):
+            k = 'enum_optional'
+        by_kind.setdefault(k, []).append(key)
+    inputs = dict(sc['inputs'])
+    gone = None
+    if by_kind:
+        kind = draw(st.sampled_from(sorted(by_kind)))
+        gone = draw(st.sampled_from(by_kind[kind]))
+        inputs.pop(gone)
+    return {'kind': 'delete_one', 'year': sc['year'], 'forms': sc['forms'], 'inputs': inputs, 'prompt': None, 'schedule': None, 'deleted': gone}
+
+
+def deleted_needed_check(ctx, sc, r0, v, r):
+    if v['kind'] == 'delete_one' and v.get('deleted'):
+        k = v['deleted']
+        ctx.count('delete_one:' + k.split('.')[0].split(':')[0])
+        if r.exc is None and (r.verdict or k not in r.unmet_inputs):
+            ctx.violation('real:needed-input-absent-not-reported', f'{v["year"]} {v["forms"]}: {k} was read by an evaluated line in the full run and is the only input removed, '
+                          f'but solve() returned {r.verdict} and reports missing inputs {sorted(r.unmet_inputs)[:4]}', {'variant': v})
+        return
+    """independent of the input store: an input that an evaluated line read in the
+    base run and that is now absent (no prompt) must make the solve fail with a
+    missing input (or abort) - the first such read cannot be passed over"""
+    if v['kind'] != 'delete' or r0.exc is not None:
+        return
+    base_read = {key for _, reads, _ in r0.trace.attempts for kind, key, o, _v in reads if kind == 'i'}
+    gone = (set(sc['inputs']) - set(v['inputs'])) & base_read
+    if not gone:
+        return
+    ctx.count('delete:needed_input_removed')
+    if r.exc is None and (r.verdict or not r.unmet_inputs):
+        ctx.violation('real:needed-input-absent-not-reported', f'{v["year"]} {v["forms"]}: inputs {sorted(gone)[:4]} were read by evaluated lines and are absent from the file, '
+                      f'but solve() returned {r.verdict} with missing inputs {sorted(r.unmet_inputs)[:4]}', {'variant': v, 'base_inputs': sc['inputs']})
+
+
 def shard_real(ctx, k, payload):
     n, seed = payload
 
     def body(data):
         p = data.draw(scenario.personas())
-        sc, _ = scenario.build(p, data.draw)
+        sc, r0 = scenario.build(p, data.draw)
         for e in p['excluded']:
             ctx.count('excluded_by_construction:' + e[:60])
         v = realcamp.make_variant(data.draw, sc, KINDS)
+        if data.draw(st.integers(0, 4)) == 0 and r0.exc is None:
+            v = delete_one_variant(data.draw, sc, r0)
         r = realcamp.run_variant(v)
         ctx.case()
         labels, c = realcamp.check_variant(ctx, ['C01'], v, r)
+        deleted_needed_check(ctx, sc, r0, v, r)
         for l in labels:
             ctx.count('real:' + l)
         ctx.count('variant:' + v['kind'])
